@@ -91,6 +91,11 @@ def pad_sweep(u, case):
         # KD5<A> { s: String, a: A, t: u8 } with A a vector / boxed slice of zero-copy items: borrowed in ε-copy results
         if isinstance(t, Adt) and t.d.name == 'KD5' and not t.d.module:
             el = t.targs[0].t
+            if isinstance(el, Adt) and el.d.name == 'KZ11':
+                # gaps up to 16383 bytes in front of a 16384-aligned block: sampled, around the page size and the extremes
+                for n in [0, 1, 2, 100, 4000, 4090, 4096, 4100, 8190, 8200, 12288, 16200, 16300]:
+                    case(i, 0, '-', '{s"%s",[{%d,%d,},],%d,}' % ('41' * n, n % 65536, n, n % 256), 'pad-sweep-page')
+                continue
             inner = el.d.name if isinstance(el, Adt) else ('z0' if isinstance(el, Array) and not isinstance(el.t, Str) else 's0')
             item = {'KZE2': lambda n: '#0(),#1(%d,),#2(%d,),' % (n % 256, 1000 + n), 'KZ8': lambda n: '{%d,%d,},{7,8,},' % (n, 1000 + n),
                     'KZ6': lambda n: '{%d,},{9,},' % (n % 256), 'z0': lambda n: '[],[],[],', 's0': lambda n: '[],[],',
@@ -165,6 +170,18 @@ def gen_cases(prop, u, seed, tier, probe=None):
                         cs.add('alloc %d 0 %s' % (i, sv), kind='alloc', ti=i, val=sv, group=gid, factor=f, family='alloc-scaling')
                 else:
                     cs.add('alloc %d 0 %s' % (i, v), kind='alloc', ti=i, val=v, group=None, factor=1, family='alloc-plain')
+        # vectors of items that are written as zero bytes but rebuilt as non-zero-sized structures: more items than
+        # bytes left in the stream; what is allocated must still not depend on the borrowed payloads that follow
+        for i, t in enumerate(u.types):
+            if not valterm.has_empty_items(t): continue
+            for v in values_for(t, rng, 8):
+                for n in (40, 300):
+                    tv = valterm.inflate(t, valterm.parse(v), n)
+                    group = [valterm.show(valterm.scale(t, tv, f)) for f in (1, 16, 256)]
+                    if len(set(group)) > 1:
+                        gid = len(cs.lines)
+                        for f, sv in zip((1, 16, 256), group):
+                            cs.add('alloc %d 0 %s' % (i, sv), kind='alloc', ti=i, val=sv, group=gid, factor=f, family='alloc-empty-items')
     elif prop in ('C01', 'C02'):
         pad_sweep(u, case)
         long_cases(u, case, quick)
@@ -267,8 +284,14 @@ def gen_cases(prop, u, seed, tier, probe=None):
             blocks = [(r['offset'], r['align']) for r in ps[1] if r['align'] > 0 and r['field'].startswith('ROOT')]
             maxu = max([u_ for _, u_ in blocks] + [1])
             rs = range(128) if (not quick or maxu > 1 and i % 2 == 0) else [0, 1, 2, 3, 4, 6, 8, 12, 16, 24, 32, 48, 64, 65, 96, 127]
+            # "streams containing only byte-aligned data deserialize at any address": every zero-copy node of the type
+            # has native alignment 1 (computed from the type, not from the unit the implementation reports)
+            def native_align(x):
+                try: return x.align()
+                except Exception: return 1
+            bytealigned = all(native_align(x) == 1 for x in u.types[i].walk() if x.is_zc())
             for r in rs:
-                case(i, r, '-', v, 'placement', blocks=blocks)
+                case(i, r, '-', v, 'placement', blocks=blocks, bytealigned=bytealigned)
     elif prop == 'C15':
         plan = []
         for i, t in enumerate(u.types):
@@ -318,6 +341,10 @@ def gen_cases(prop, u, seed, tier, probe=None):
                         if w < nv: continue
                         case(i, 0, 'setw:%d:8:%d' % (r['offset'], w), v, 'tag-word', nv=nv, tag=w, off=r['offset'], last=(r['offset'] + 8 == len(ps[0]) // 2))
     elif prop == 'C09':
+        # the backing region must outlive the loaded structure: a structure whose destructor reads its borrowed data
+        for l in ['full', 'mem', 'mmap', 'map']:
+            for n in [0, 1, 7, 1000, 40000]:
+                cs.add('dropcheck %s %d' % (l, n), kind='dropcheck', loader=l, n=n, family='drop-order')
         plan = []
         for i, t in enumerate(u.types):
             if is_fragile(t): continue
@@ -372,6 +399,11 @@ def gen_cases(prop, u, seed, tier, probe=None):
             for (x, y) in ((a, b), (b, a)):
                 if vals.get(x) is None: continue
                 cs.add('xdeser %d %d %s' % (x, y, vals[x]), kind='xdeser', ti=x, tj=y, val=vals[x], family='near-miss:' + kind)
+                # the same with an older (accepted) and a newer (refused) minor version in the header
+                if kind.startswith('known'): continue       # the recorded findings are identified by their xdeser line
+                cs.add('xdeserm %d %d 0 %s' % (x, y, vals[x]), kind='xdeser', ti=x, tj=y, val=vals[x], minor=0, family='near-miss-minor0:' + kind)
+                if (x + y) % 4 == 0:
+                    cs.add('xdeserm %d %d 2 %s' % (x, y, vals[x]), kind='xdeser', ti=x, tj=y, val=vals[x], minor=2, family='near-miss-minor2')
         # arbitrary ordered pairs
         idx = list(range(n))
         near = set((a, b) for (a, b, _) in u.mutant_pairs) | set((b, a) for (a, b, _) in u.mutant_pairs)
@@ -381,6 +413,12 @@ def gen_cases(prop, u, seed, tier, probe=None):
         for (a, b) in pairs:
             if vals.get(a) is None: continue
             cs.add('xdeser %d %d %s' % (a, b, vals[a]), kind='xdeser', ti=a, tj=b, val=vals[a], family='pair')
+        for (a, b) in pairs[:600]:
+            if vals.get(a) is None: continue
+            cs.add('xdeserm %d %d 0 %s' % (a, b, vals[a]), kind='xdeser', ti=a, tj=b, val=vals[a], minor=0, family='pair-minor0')
+        for i in range(0, n, 3):
+            if vals.get(i) is None: continue
+            cs.add('xdeserm %d %d 0 %s' % (i, i, vals[i]), kind='xdeser', ti=i, tj=i, val=vals[i], minor=0, family='self-minor0')
     elif prop == 'C17':
         for i, t in enumerate(u.types):
             def owns_heap(x):
@@ -529,6 +567,14 @@ def gen_cases(prop, u, seed, tier, probe=None):
         def rb(n): return bytes(rng.randrange(256) for _ in range(n)).hex()
         alphabet = ['w:', 'w:' + rb(1), 'w:' + rb(3), 'w:' + rb(17), 'r:0', 'r:2', 'r:100', 'ss:0', 'ss:7', 'ss:40',
                     'se:0', 'se:-2', 'se:6', 'sc:-3', 'sc:5', 'p:0', 'p:33', 'f', 'se:-1000', 'sc:-1000']
+        # the provided methods of Read / Write (read_to_end, read_exact, write_all): sequences of up to three of them around
+        # writes and position changes, exhaustively
+        prov = ['ra', 'rx:0', 'rx:1', 'rx:5', 'wa', 'wa:' + rb(2), 'w:' + rb(4), 'p:2', 'p:9', 'se:3', 'r:3']
+        for L in range(1, 4):
+            for combo in itertools.product(prov, repeat=L):
+                if any(x[:2] in ('ra', 'rx', 'wa') for x in combo):
+                    ops = ';'.join(('w:' + rb(5),) + combo)
+                    cs.add('cursor 16 ' + ops, kind='cursor', family='provided-len%d' % L, val=ops)
         maxlen = 3 if quick else 4
         alpha = alphabet[:14] if not quick else alphabet[:12]
         for L in range(1, maxlen + 1):
@@ -541,7 +587,10 @@ def gen_cases(prop, u, seed, tier, probe=None):
             if c < 0.65: return 'ss:%d' % rng.choice([0, 1, 15, 16, 17, 63, 64, 65, 200, 1000, rng.randrange(0, 3000)])
             if c < 0.75: return 'se:%d' % rng.choice([0, -1, -16, -17, 5, 64, -5000, rng.randrange(-300, 300)])
             if c < 0.87: return 'sc:%d' % rng.choice([0, -1, 1, -16, 16, 100, -5000, rng.randrange(-300, 300)])
-            if c < 0.97: return 'p:%d' % rng.choice([0, 1, 16, 17, 64, 500, rng.randrange(0, 2000)])
+            if c < 0.93: return 'p:%d' % rng.choice([0, 1, 16, 17, 64, 500, rng.randrange(0, 2000)])
+            if c < 0.95: return 'ra'
+            if c < 0.97: return 'rx:%d' % rng.choice([0, 1, 3, 16, 40, 300])
+            if c < 0.99: return 'wa:' + rb(rng.choice([0, 0, 1, 8, 33]))
             return 'f'
         for k in range(150 if quick else 1500):
             n = rng.choice([5, 10, 20, 50, 120]) if quick else rng.choice([10, 50, 200, 600])
